@@ -163,7 +163,7 @@ macro_rules! rt_stream_ctr {
             let mut buf = msg;
             let mk = || {
                 let mut core = ctr::CtrCore::<_, ctr::flavors::$flavor>::inner_iv_init(UfE::<$bs, $par>::with_key(key), blk::<$bs>(&iv));
-                core.set_block_pos(pos);
+                core.set_block_pos(pos as _);
                 StreamCipherCoreWrapper::from_core(core)
             };
             mk().apply_keystream(&mut buf[..L]);
